@@ -65,6 +65,16 @@ CLAIMED = {
         text="Exploration: every round of every generated POO run is attributed to the learner whose pull ran; routing (exactly one learner, reward to the same learner once), learner list monotonicity, construction parameters on the published rho grid, and the score/count invariants V_reward == mean(ledger), Times == len(ledger) are checked after every round; get_last_point must ask one best-scored learner. A grid of rho_max values is enumerated with stub learners for thousands of rounds to reach the later doubling phases.",
         note="rho_max >= 0.84 (POO starts); tolerance 1e-9 relative to the largest |reward|.",
         ref="4/C10"),
+    "C11": dict(
+        technique="property-based testing (Hypothesis): per-round structural invariant over the arm->cell map vs. the leaf tiling, reference index/phase/refinement rule evaluated from a harness-kept per-arm ledger",
+        text="Exploration: after every round of every generated run the arm-to-cell map is compared with the leaves of the partition (containment and coverage), the arm returned by pull must maximise the published index computed from the ledger and the reference phase schedule, the refinement must happen iff the confidence radius has dropped to nu*rho^depth, and each refinement must leave exactly one child with the old arm and a fresh zero-pull arm at the centre of every other child. Generators are weighted towards midpoint splits, where the arm lies on a shared face.",
+        note="active_points / pulled_times / average_rewards are read directly (named by the property); either phase is accepted at a phase boundary; tolerance 1e-12.",
+        ref="4/C11"),
+    "C12": dict(
+        technique="property-based testing (Hypothesis) plus enumeration of every n in a range: the openings (make_children calls) recorded inside each pull are judged by a reference model of the harmonic schedule with exact Fraction arithmetic",
+        text="Exploration, with the full-budget runs for every n in 10..600 (thorough ..3000) on two partitions enumerated: each pull is classified (opening / pending child / post-schedule) and checked against the reference schedule: root first, depth order, per-depth budgets floor(h_max/h) with h_max = floor(n/H_n) computed exactly, depth advance only on exhausted budget or no unopened cell, opened cell is the best unopened evaluated cell of its depth, children returned in order exactly once, no cell evaluated twice, domain centre only after exhaustion and a stable recommendation afterwards.",
+        note="n >= 10; openings are observed through the recording partition subclass.",
+        ref="4/C12"),
 }
 
 NOT_YET = "check not built yet in this round (planned in DESIGN.md section 4); property-based testing applies"
